@@ -40,9 +40,11 @@ class BloomSystem(System):
         rates = RATES if tier == "quick" else RATES_THOROUGH
         strats = STRATS
         depth = 5 if tier == "quick" else 7
-        if prop in ("C05", "C06", "C19") and tier == "quick":
+        if prop in ("C05", "C19") and tier == "quick":
             ns = (1, 2, 3, 5, 8, 12)
             depth = 4
+        if prop == "C06":
+            depth = 4 if tier == "quick" else 6
         if prop == "C14" and tier == "quick":
             depth = 4
         seen = set()
@@ -57,6 +59,8 @@ class BloomSystem(System):
                         continue
                     seen.add((m, k, s))
                     cfgs.append(dict(n=n, p=p, strat=s, depth=depth, seed=seed, m=m, k=k, cost=m * k))
+        if prop == "C06":
+            cfgs = [c for c in cfgs if c["strat"] == "fnv"]  # the C reference implements the documented FNV-1a rule
         if seed:
             r = seed % len(cfgs)
             cfgs = cfgs[r:] + cfgs[:r]
